@@ -766,6 +766,43 @@ func v2unb64(s string) []byte {
 
 // ---------- runners ----------
 
+// History mode. The parser must be a function of its input alone: before the genuine bytes are parsed,
+// corrupted copies of them are (every public-key-shaped key data or value gets an invalid encoding that
+// shares its x coordinate: prefix byte changed, uncompressed with a wrong y). The model parser is a pure
+// function, so K and S compare the result of the genuine parse that comes AFTER these.
+func v2history(ser []byte) {
+	ps := v2walk(ser)
+	n := 0
+	try := func(q v2pair, key, val []byte) {
+		if n++; n > 24 {
+			return
+		}
+		v2parse(v2cat(ser[:q.start], v2vs(key), v2vs(val), ser[q.end:]))
+	}
+	bad := func(k []byte) (out [][]byte) { // invalid encodings with the x coordinate of k
+		switch {
+		case len(k) == 33 && (k[0] == 2 || k[0] == 3):
+			a, b := v2cp(k), v2cp(k)
+			a[0], b[0] = 4, 0xff
+			out = append(out, a, b, v2cat([]byte{4}, k[1:], bytes.Repeat([]byte{1}, 32)))
+		case len(k) == 65 && k[0] == 4:
+			a, b := v2cp(k), v2cp(k)
+			a[64] ^= 1
+			b[0] = 6 + (k[64]&1 ^ 1) // hybrid prefix announcing the other parity
+			out = append(out, a, b)
+		}
+		return
+	}
+	for _, q := range ps {
+		for _, k := range bad(q.key[1:]) {
+			try(q, v2cat(q.key[:1], k), q.val)
+		}
+		for _, v := range bad(q.val) {
+			try(q, q.key, v)
+		}
+	}
+}
+
 func runV2Pset(t *Toks) string {
 	v2skipOracle(t)
 	p := readPsetV2(t)
@@ -775,6 +812,7 @@ func runV2Pset(t *Toks) string {
 		return fmt.Sprintf("ser=%s wf=%s parse=-", st, wf)
 	}
 	ser := v2unb64(b64)
+	v2history(ser)
 	q, st := v2parse64(b64)
 	if st == "ok" {
 		st = dumpPsetV2(q)
@@ -784,7 +822,9 @@ func runV2Pset(t *Toks) string {
 
 func runV2PsetRaw(t *Toks) string {
 	v2skipOracle(t)
-	p, st := v2parse(t.Hex())
+	raw := t.Hex()
+	v2history(raw)
+	p, st := v2parse(raw)
 	if st == "err" {
 		return "parse=none"
 	}
@@ -919,8 +959,22 @@ func v2genMap(r *Rng, klen int) (l []v2kv) {
 	if v2manyPreimages {
 		n = r.Pick(1, 2, 2, 3)
 	}
-	for ; n > 0; n-- {
-		l = append(l, v2kv{r.Bytes(klen), r.Bytes(r.Pick(0, 1, 8, 32))})
+	// half of the multi-entry maps hold hashes that share a long common prefix (8, 16 or all but the
+	// last byte; small big-endian numbers): an ordering that looks at a prefix only ties on them
+	share, base := 0, r.Bytes(klen)
+	if n > 1 && r.Bool() {
+		share = r.Pick(8, 8, 16, klen-1, klen-1)
+		if r.Chance(30) {
+			base = make([]byte, klen)
+		}
+	}
+	for i := 0; n > 0; n, i = n-1, i+1 {
+		k := r.Bytes(klen)
+		copy(k, base[:share])
+		if share == klen-1 {
+			k[klen-1] = base[klen-1] + byte(i) // distinct by construction
+		}
+		l = append(l, v2kv{k, r.Bytes(r.Pick(0, 1, 8, 32))})
 	}
 	return
 }
@@ -1560,8 +1614,12 @@ func v2mutate(r *Rng, ser []byte) []byte {
 	case 13: // a second entry, with a greater key, after a pre-image pair
 		for _, c := range ps {
 			if t := c.key[0]; t >= 0x0a && t <= 0x0d && len(c.key) > 1 && c.key[1] < 0xff {
-				k2 := v2cp(c.key)
-				k2[1]++
+				k2 := v2cp(c.key) // differs from its neighbour in one byte: the first, or one behind a long common prefix
+				at := r.Pick(1, 1, 9, 17, len(k2)-1)
+				if at >= len(k2) {
+					at = len(k2) - 1
+				}
+				k2[at]++
 				m = splice(c.end, c.end, v2cat(v2vs(k2), v2vs(r.Bytes(r.Pick(0, 1, 8)))))
 				break
 			}
